@@ -209,6 +209,15 @@ def record_cli_case(cid, seed, origin='random'):
             events.append({'a': 'concat', 'kind': 'seq', 'setlike': 'F', 'what': 'transform ' + destfmt,
                            'a_': [x for x in ra['A.out'] if x != ''], 'b_': [x for x in rb['B.out'] if x != ''],
                            'ab': [x for x in rab['AB.out'] if x != '']})
+        # --split: the parts, in order, are the unsplit output (every sentence transformed as without --split)
+        if destfmt != 'tigerxml':
+            spec = rnd.choice(['1#_rest', '50%_50%', 'rest_1#'])
+            a = ['transform', 'AB.export', 'ABs.out', '--dest-format', destfmt, '--split', spec] \
+                + (['--trans'] + trans if trans else [])
+            rs = cli_lines(a, tmp, ['ABs.out.0', 'ABs.out.1'])
+            events.append({'a': 'concat', 'kind': 'seq', 'setlike': 'F', 'what': 'transform --split %s %s' % (spec, destfmt),
+                           'a_': [x for x in rs['ABs.out.0'] if x != ''], 'b_': [x for x in rs['ABs.out.1'] if x != ''],
+                           'ab': [x for x in rab['AB.out'] if x != '']})
         r2 = conv('AB.export', 'AB2.out', hs=str(rnd.randint(1, 999)))
         events.append({'a': 'repeat', 'setlike': 'F', 'what': 'transform ' + destfmt,
                        'out1': rab['AB.out'], 'out2': r2['AB2.out']})
